@@ -327,7 +327,7 @@ class ComposedNode(ConfigNode):
 
                     if merge:
                         # (emptied by an empty deleting value: for a function node truthiness tells whether a target is set, not whether any child is left)
-                        emptied = not possibly_new_child or (not value and isinstance(possibly_new_child, ComposedNode) and not possibly_new_child.ayns.children_count())
+                        emptied = ComposedNode._leaves_nothing(possibly_new_child) or (not value and isinstance(possibly_new_child, ComposedNode) and not possibly_new_child.ayns.children_count())
                         if emptied and not possibly_new_child.ayns.has_priority_over(value) and value.ayns.explicit_delete:
                             removed.append(key)
                         elif possibly_new_child is not child:
@@ -335,7 +335,7 @@ class ComposedNode(ConfigNode):
                     else:
                         if possibly_new_child is not child:
                             possibly_new_child.ayns._require_all_new(path + [key], f'last parent: {_this_path!r}, from file: {self.ayns.source_file!r}', include_self=False)
-                            if not possibly_new_child and possibly_new_child.ayns.explicit_delete:
+                            if ComposedNode._leaves_nothing(possibly_new_child) and possibly_new_child.ayns.explicit_delete:
                                 removed.append(key)
                             else:
                                 self.ayns.set_child(key, possibly_new_child)
@@ -364,6 +364,16 @@ class ComposedNode(ConfigNode):
                 if not n.ayns.allow_new and (exceptions is None or p not in exceptions):
                     raise ValueError(f'Node {p!r} (source file: {n.ayns.source_file!r}) requires that the destination already exists but the current config tree does not contain a node under this path ({reason})')
 
+
+    @staticmethod
+    def _leaves_nothing(node):
+        ''' Whether an explicit ``!del`` node which has come out of a merge as ``node`` stands for "remove this key": it has no value
+            at all, or it is an empty container - a scalar which merely is falsy (``!del 0``, ``!del ''``, ``!del false``) is content.
+        '''
+        from .scalar import ConfigScalar, ConfigNone
+        if isinstance(node, ConfigScalar):
+            return node._dyn_base is ConfigNone
+        return not node
 
     def __getstate__(self):
         state = self.__dict__.copy()
